@@ -5,6 +5,7 @@ go 1.14
 require (
 	github.com/Comcast/rulio v0.0.0
 	github.com/anishathalye/porcupine v1.3.0
+	gopkg.in/yaml.v2 v2.3.0
 )
 
 replace github.com/Comcast/rulio => /repo
